@@ -389,7 +389,7 @@ def phaseC_worker(args):
             if len(samples) < 2 and r0 and (r0[0] == "ok" or (r0[0] == "err" and r0[1] > 0)):
                 samples.append({"rule": rule, "input": inp, "observed": list(r0)[:2] + [str(x)[:200] for x in list(r0)[2:]]})
         out.append({"uid": uid, "base": u["base"], "variant": u["variant"], "counters": counters,
-                    "findings": findings[:50], "nfindings": len(findings), "stats": stats,
+                    "findings": cap_per_kind(findings, 12), "nfindings": len(findings), "stats": stats,
                     "results": results if monitor_opts.get("keep_results") else None,
                     "samples": samples, "text": u["text"] if (findings or samples) else None,
                     "case_facts": case_facts, "nrules": len(u["grammar"].normal_rules()),
@@ -483,6 +483,18 @@ def capture_indented(rundir, name, binpath, us, per_unit=6, maxbytes=80):
     for pth in (errp, cases_path, os.path.join(rundir, name + ".ind.log")):
         if os.path.exists(pth):
             os.remove(pth)
+
+
+def cap_per_kind(findings, n):
+    """at most n findings of each kind (a flood of one kind must not crowd out the kinds another property owns)"""
+    seen = {}
+    out = []
+    for f in findings:
+        k = f.get("kind")
+        seen[k] = seen.get(k, 0) + 1
+        if seen[k] <= n:
+            out.append(f)
+    return out
 
 
 def fixrec(r):
@@ -845,7 +857,7 @@ def summarise(profile, seed, tier, opts, units, per_unit, pgen_fail, compile_fai
             "pgen_fail": pgen_fail[:20], "n_pgen_fail": len(pgen_fail),
             "compile_fail": compile_fail[:20], "n_compile_fail": len(compile_fail),
             "crashes": crashes[:20], "timeouts": timeouts,
-            "counters": counters, "stats": stats, "findings": findings[:200], "nfindings": len(findings),
+            "counters": counters, "stats": stats, "findings": cap_per_kind(findings, 40), "nfindings": len(findings),
             "variant_findings": vfind[:50], "variant_stats": vstats, "samples": samples, "case_facts": case_facts_all}
 
 
